@@ -893,6 +893,11 @@ class _Frame:
         r = ev.callee
         if isinstance(ev.raw, ast.Call) and False:
             return True
+        c = unawait(ev.expr) if ev.expr is not None else None
+        if isinstance(c, ast.Call) and isinstance(c.func, ast.Attribute) and \
+                c.func.attr in _PURE_METHODS - {'encode', 'decode', 'format'} and \
+                not isinstance(ev.raw, ast.Await):
+            return False        # str methods: no effect on any object state
         if r is None:
             return True
         if r.kind in ('repo', 'unknown'):
@@ -1085,10 +1090,24 @@ class _Frame:
                     else:
                         env2[st.target.id] = ast.BinOp(cur, st.op, vals[0])
                 else:
-                    tgt = subst(st.target, env)
-                    ev2.append(Event('write', expr=ast.BinOp(tgt, st.op, vals[0]),
+                    tgt = subst_target(st.target, env)
+                    d = dotted(tgt) if isinstance(tgt, ast.Attribute) else None
+                    cur = (env.get(d) if d else None) or tgt
+                    value = ast.BinOp(cur, st.op, vals[0])
+                    if isinstance(st.op, ast.Add) and isinstance(cur, ast.List) and \
+                            isinstance(vals[0], ast.List):
+                        value = _list_concat(cur, vals[0])
+                    ev2.append(Event('write', expr=value,
                                      target=tgt, node=node, func=self.fi, depth=self.depth,
                                      raw=st.target, ctx=self.ctx))
+                    if d is not None:
+                        # ``self.x += e``: the attribute now has the new value
+                        env2[d] = value
+                        for k_ in [k_ for k_ in env2 if isinstance(k_, str) and
+                                   k_.startswith(d + '.')]:
+                            del env2[k_]
+                        if env2.get(FACTS):
+                            env2[FACTS] = {a: v_ for a, v_ in env2[FACTS].items() if d not in a}
                 self.exc_edges(node, env, events2, visits, raised, hcls)
                 self.follow_normal(node, env2, ev2, visits, pending, hcls)
             self.eval_calls(node, [st.value], env, list(events), k)
